@@ -30,6 +30,9 @@ FAMILIES = {
     "retry": dict(profile="retry", over={"fail_levels": 1, "fanout_handlers": False}),
     # Catch on the Map/Parallel state itself (every ResultPath form) with failing branches; no Retry anywhere, so the
     # recorded C06/C07 findings (sibling in a Retry back-off; RetryCount leaking into the fan-out) cannot be touched
+    # programs full of Waits (every form) and Task / machine time-outs; in fan-outs only time-outs fail
+    "timing": dict(profile="timing", over={"fail_levels": 1, "fanout_handlers": False}),
+    "timing_fanout": dict(profile="timing_fanout", over={"fail_levels": 1, "fanout_handlers": False}),
     # Retry/Catch on single-branch / single-item fan-outs: no sibling is in flight when the fan-out fails
     "retry_fanout1": dict(profile="retry", over={"fail_levels": 1, "fanout_handlers": True, "retry_in_retried_fanout": False,
                                                  "types": dict(Pass=2, Task=6, Choice=1, Wait=1, Succeed=1, Fail=1,
